@@ -389,6 +389,9 @@ pub struct PrintOpts {
     /// redundant parentheses around the whole value of every definition, assignment and `ret`
     /// (if- and case-expressions in those positions are otherwise written bare)
     pub paren_values: bool,
+    /// a prime call that is the whole value of a statement is written without its parentheses (`x := f' a, b`);
+    /// with `break_brackets` its argument list then continues over lines after each comma
+    pub bare_prime_statements: bool,
     /// a comment after every separator that `break_brackets` / `break_infix` put at a line end
     pub comment_in_breaks: bool,
     /// redundant parentheses around the callee of paren-style and arrow-style calls: `(f)(a)`, `a -> (f)(b)`
@@ -684,6 +687,18 @@ impl Printer {
 
     /// statement whose main expression may be a multi-line construct (fn / if / case)
     fn multi(&mut self, head: &str, e: &Expr, tail: &str) {
+        if self.opts.bare_prime_statements && tail.is_empty() {
+            if let Expr::Call(_, args, CallStyle::Prime | CallStyle::ArrowPrime) = e {
+                let enough = if matches!(e, Expr::Call(_, _, CallStyle::ArrowPrime)) { args.len() >= 2 } else { !args.is_empty() };
+                if enough {
+                    let t = self.expr(e, 0);
+                    if t.starts_with('(') && t.ends_with(')') {
+                        self.line_out(&format!("{}{}", head, &t[1..t.len() - 1]));
+                        return;
+                    }
+                }
+            }
+        }
         if self.opts.paren_values && !head.is_empty() && !matches!(e, Expr::Fn(_)) {
             // If / Case come back parenthesised from `expr`; everything else gets one extra pair
             let t = match e {
